@@ -972,6 +972,9 @@ def evaluate(t, env, memo=None):
         elif op == "getslice" and len(t.args) == 3:
             b, lo, hi = (evaluate(a, env, memo) for a in t.args)
             r = b[lo:hi]
+        elif op in ("elem",) and len(t.args) == 2 and not isinstance(t.args[0], Ref):
+            b, i = (evaluate(a, env, memo) for a in t.args)
+            r = b[i]
         elif op == "getitem" and len(t.args) == 2 and not isinstance(t.args[0], Ref):
             b, i = (evaluate(a, env, memo) for a in t.args)
             r = b[i]
